@@ -31,6 +31,56 @@ Proof.
   rewrite forallb_forall in Hall. specialize (Hall s Hin). destruct (level_from_str s); congruence.
 Qed.
 
+Lemma str_eqb_sym : forall a b, str_eqb a b = str_eqb b a.
+Proof.
+  intros a b. destruct (str_eqb a b) eqn:E.
+  - apply str_eqb_eq in E. subst. symmetry. apply str_eqb_refl.
+  - destruct (str_eqb b a) eqn:E2; [|reflexivity]. apply str_eqb_eq in E2. subst. rewrite str_eqb_refl in E. discriminate.
+Qed.
+
+(* a character whose lower-case form is a letter is neither a digit nor '+' *)
+Lemma letter_not_numeric : forall c l r, In l ["e"; "w"; "i"; "d"; "t"; "o"]%char -> lower_ascii c = l ->
+  parse_unsigned (SCons c r) = None.
+Proof.
+  intros c l r Hl Hc.
+  destruct c as [b0 b1 b2 b3 b4 b5 b6 b7].
+  destruct b0, b1, b2, b3, b4, b5, b6, b7; cbn in Hc; subst l; cbn in Hl;
+    repeat (destruct Hl as [Hl|Hl]; [discriminate Hl|]); try (destruct Hl); reflexivity.
+Qed.
+
+Lemma level_name_any_case : forall name s, In name level_names -> eq_ignore_ascii_case name s = true ->
+  level_from_str s <> None.
+Proof.
+  intros name s Hin He. unfold eq_ignore_ascii_case in He. apply str_eqb_eq in He.
+  assert (Hnum : parse_unsigned s = None).
+  { destruct s as [|c r].
+    - cbn in Hin. repeat (destruct Hin as [Hin|Hin]; [subst name; discriminate He|]). destruct Hin.
+    - cbn in Hin. cbn [lower] in He.
+      repeat (destruct Hin as [Hin|Hin];
+              [subst name; cbn in He; inversion He as [[Hc Hr]]; eapply letter_not_numeric; [|symmetry; exact Hc]; cbn; tauto|]).
+      destruct Hin. }
+  unfold level_from_str. rewrite Hnum.
+  destruct (str_eqb s "") eqn:Es; [discriminate|].
+  destruct (find (fun n => eq_ignore_ascii_case s n) level_names) eqn:Ef; [discriminate|].
+  exfalso. pose proof (find_none _ _ Ef name Hin) as Hn. cbn beta in Hn.
+  unfold eq_ignore_ascii_case in Hn. rewrite str_eqb_sym, He, str_eqb_refl in Hn. discriminate.
+Qed.
+
+(* an enumerated parser all of whose values are level names never hands LevelFilter::from_str a value it cannot parse -
+   with or without ignore_case (from_str itself ignores the ASCII case) *)
+Lemma possible_levels_any_case : forall pv ic,
+  forallb (fun v => existsb (str_eqb v) level_names) pv = true ->
+  forall s, vp_accepts (VPossible pv ic) s = true -> level_from_str s <> None.
+Proof.
+  intros pv ic Hall s H. unfold vp_accepts in H. apply andb_true_iff in H. destruct H as [_ H].
+  apply existsb_exists in H. destruct H as [name [Hin Hm]].
+  rewrite forallb_forall in Hall. specialize (Hall name Hin).
+  apply existsb_exists in Hall. destruct Hall as [n' [Hn' E]]. apply str_eqb_eq in E. subst n'.
+  destruct ic.
+  - eapply level_name_any_case; eauto.
+  - apply str_eqb_eq in Hm. subst s. eapply level_name_any_case; eauto. unfold eq_ignore_ascii_case. apply str_eqb_refl.
+Qed.
+
 (* ------------------------------------------------------------------ what a successful parse guarantees *)
 Section Spec.
 Variable spec : list arg_spec.
@@ -238,10 +288,10 @@ Qed.
 Lemma verbose_value_has_level : forall s,
   vp_accepts (vp_of_field "verbose") s = true -> level_from_str s <> None.
 Proof.
-  assert (E : exists pv, vp_of_field "verbose" = VPossible pv false /\
-                         forallb (fun v => match level_from_str v with Some _ => true | None => false end) pv = true)
-    by (eexists; split; reflexivity).
-  destruct E as [pv [E1 E2]]. rewrite E1. apply possible_exact_levels. exact E2.
+  assert (E : exists pv ic, vp_of_field "verbose" = VPossible pv ic /\
+                            forallb (fun v => existsb (str_eqb v) level_names) pv = true)
+    by (do 2 eexists; split; reflexivity).
+  destruct E as [pv [ic [E1 E2]]]. rewrite E1. apply possible_levels_any_case. exact E2.
 Qed.
 
 (* what goes wrong when the enumerated parser ignores case and the consumer does not (seeded C20-8's class) *)
